@@ -383,10 +383,18 @@ class World (object):
     return bool(r)
 
   def _idle_no_time (self):
-    """hub.idle() without letting virtual time move."""
+    """
+    hub.idle() without letting virtual time move: the hub's own pinger is
+    pinged first, so its select() returns at once through the "I/O event"
+    path (due timers are still expired, new registrations picked up, ready
+    descriptors dispatched) and never through the "timeout elapsed" path,
+    which would hand a timeout to a task whose deadline has not come.
+    """
     t0 = self.clock.now
+    self.hub._pinger.ping()
     self.hub.idle()
-    self.clock.now = t0
+    if self.clock.now != t0:
+      raise AdapterError("virtual time moved inside a zero-time idle")
 
   def next_deadline (self):
     d = None
@@ -406,10 +414,8 @@ class World (object):
       d = self.next_deadline()
       if d is None or d > end: break
       if d > self.clock.now: self.clock.now = d
-      # expire: idle() sees the deadline passed (select returns nothing)
-      t0 = self.clock.now
-      self.hub.idle()
-      self.clock.now = max(t0, min(self.clock.now, end))
+      # the hub expires what is due now (and nothing else: see _idle_no_time)
+      self._idle_no_time()
       n += 1
       n += self.run(max_steps - n)
     self.clock.now = end
